@@ -364,6 +364,8 @@ func (versionSuite) Run(raw json.RawMessage) []Step {
 			}
 			out := vResolveThrough(n, strings.TrimSuffix(op.A, "@"+pin), op.B)
 			steps = append(steps, Step{Line: "v.res\t" + hx(op.A) + "\t" + hx(op.B), Go: out, Desc: fmt.Sprintf("one-candidate resolutions (world entry / dependency on the name / dependency on a provided name) of %q against version %q", op.A, op.B), Tags: []string{fmt.Sprintf("res:dep%d:%s", d, out)}})
+			// the check on the Go → Lean translator: the same call against Generated.Trans.satisfies (extract/trans.go)
+			steps = append(steps, Step{Line: "tv.sat\t" + hx(op.A) + "\t" + hx(op.B), Go: out, Desc: fmt.Sprintf("translated satisfies: ResolvePackageNameVersionPin(%q).SatisfiedBy(%q)", op.A, op.B), Tags: []string{"tv.sat"}, Trivial: out == "verr" || out == "err"})
 		}
 	}
 	return steps
